@@ -137,11 +137,32 @@ def expand(node, defs, depth=3, keep=()):
 
 
 # ---------------------------------------------------------------------------- symbolic return cases / linear forms
-def parse_sx(txt):
+class _Unabbreviate(ast.NodeTransformer):
+    def __init__(self, depth):
+        self.depth = depth
+
+    def visit_Name(self, node):
+        from ..interp import SX_LONG
+        if node.id in SX_LONG and self.depth > 0:
+            try:
+                sub = ast.parse(SX_LONG[node.id], mode='eval').body
+            except SyntaxError:
+                return node
+            return _Unabbreviate(self.depth - 1).visit(sub)
+        return node
+
+
+def parse_sx(txt, full=False):
+    """Expression tree of a symbolic text; with full=True abbreviated definitions (digests) are written out again."""
+    if txt is None:
+        return None
     try:
-        return ast.parse(txt, mode='eval').body
+        tree = ast.parse(txt, mode='eval').body
     except SyntaxError:
         return None
+    if full:
+        tree = _Unabbreviate(6).visit(tree)
+    return tree
 
 
 def linear(node, atoms):
@@ -217,10 +238,10 @@ def return_cases(it, fi, cfg):
             continue
         conds = []
         for t, pol in cfg.guards(nid):
-            e = parse_sx(it.sx(t))
+            e = parse_sx(it.sx(t), full=True)
             if e is not None:
                 conds.append((e, pol))
-        v = parse_sx(it.sx(r.value))
+        v = parse_sx(it.sx(r.value), full=True)
         if v is None:
             out.append((r, _atomic(conds), None))
             continue
@@ -348,3 +369,42 @@ def predicate_facts(ctx, it, callee, pol, depth, seen):
             else:
                 facts.append((it.value_of(expr), p, expr, callee.qualname))
     return facts, ok
+
+
+def linear_atoms(node):
+    """node as sum(coef * atom) + const where an atom is any maximal sub-expression that is not itself a sum, difference or
+    scaling by a literal: ({atom text: coef}, const). Never fails."""
+    def lit(n):
+        if isinstance(n, ast.Constant) and isinstance(n.value, (int, float)) and not isinstance(n.value, bool):
+            return float(n.value)
+        return None
+
+    def lin(n):
+        v = lit(n)
+        if v is not None:
+            return {}, v
+        if isinstance(n, ast.UnaryOp) and isinstance(n.op, (ast.USub, ast.UAdd)):
+            a, c = lin(n.operand)
+            s = -1.0 if isinstance(n.op, ast.USub) else 1.0
+            return {k: s * x for k, x in a.items()}, s * c
+        if isinstance(n, ast.BinOp):
+            if isinstance(n.op, (ast.Add, ast.Sub)):
+                (a, ca), (b, cb) = lin(n.left), lin(n.right)
+                s = 1.0 if isinstance(n.op, ast.Add) else -1.0
+                out = dict(a)
+                for k, x in b.items():
+                    out[k] = out.get(k, 0.0) + s * x
+                return out, ca + s * cb
+            if isinstance(n.op, ast.Mult):
+                for x, y in ((n.left, n.right), (n.right, n.left)):
+                    v = lit(x)
+                    if v is not None:
+                        a, c = lin(y)
+                        return {k: v * w for k, w in a.items()}, v * c
+            if isinstance(n.op, ast.Div) and lit(n.right) not in (None, 0.0):
+                a, c = lin(n.left)
+                v = lit(n.right)
+                return {k: w / v for k, w in a.items()}, c / v
+        return {norm_text(n): 1.0}, 0.0
+    atoms, c = lin(node)
+    return {k: v for k, v in atoms.items() if v != 0}, c
